@@ -13,6 +13,17 @@ from harness.impl import shapes_trace as st
 TRACE_FILES = [containment.__file__, colliders.__file__, _rigid_body.__file__, _mesh_processing.__file__, geometry.__file__]
 
 
+TRACER = None
+
+
+def traced(f, *a):
+    """only the functions under test run under the line tracer"""
+    if TRACER is None:
+        return f(*a)
+    with TRACER:
+        return f(*a)
+
+
 def free_aabb(sh):
     k = sh["kind"]
     if k == "sphere":
@@ -52,15 +63,15 @@ def run_rigid_body(sh):
         rb = RigidBody.make_ellipsoid(T, arr(sh["radii"]), order=1)
     else:
         raise ValueError(mk)
-    box = np.asarray(rb.aabb(), dtype=float)
+    box = np.asarray(traced(rb.aabb), dtype=float)
     out = dict(aabb=[fl(box[:, 0]), fl(box[:, 1])],
                vertices=np.asarray(rb.vertices_, dtype=float).tolist(),
                tetrahedra=np.asarray(rb.tetrahedra_).astype(int).tolist())
     if sh.get("express_in") is not None:
         # history: aabb() [cached tree] -> express_in(new frame) -> aabb() must describe the NEW stored vertices
         F = pose4(sh["express_in"]["R"], sh["express_in"]["t"])
-        rb.express_in(F)
-        box2 = np.asarray(rb.aabb(), dtype=float)
+        traced(rb.express_in, F)
+        box2 = np.asarray(traced(rb.aabb), dtype=float)
         out["after"] = dict(aabb=[fl(box2[:, 0]), fl(box2[:, 1])],
                             vertices=np.asarray(rb.vertices_, dtype=float).tolist(),
                             body2origin=np.asarray(rb.body2origin_, dtype=float).tolist())
@@ -85,11 +96,11 @@ def run_case(case):
         col = c
         if case.get("margin") is not None:
             col = colliders.Margin(c, float(case["margin"]))
-        box = np.asarray(col.aabb(), dtype=float)
+        box = np.asarray(traced(col.aabb), dtype=float)
         if box.shape != (3, 2):
             raise AssertionError(f"aabb() shape {box.shape}")
         out["aabb"] = [fl(box[:, 0]), fl(box[:, 1])]
-        fr = free_aabb(sh)
+        fr = traced(free_aabb, sh)
         if fr is not None:
             out["free"] = [fl(fr[0]), fl(fr[1])]
     except BaseException as e:  # noqa
@@ -101,9 +112,13 @@ def run_case(case):
 
 def main():
     payload = json.load(open(sys.argv[1]))
+    global TRACER
+    # warm-up (numba: AabbTree) before anything is traced
+    from distance3d.hydroelastic_contact import RigidBody
+    RigidBody.make_cube(np.eye(4), 1.0).aabb()
     tracer = st.LineTracer(TRACE_FILES)
-    with tracer:
-        res = [run_case(c) for c in payload["cases"]]
+    TRACER = tracer
+    res = [run_case(c) for c in payload["cases"]]
     hits = {k.split("/")[-1]: v for k, v in tracer.result().items()}
     json.dump(dict(results=res, line_hits=hits), open(sys.argv[2], "w"))
 
